@@ -10,7 +10,8 @@ H=$V/harness
 . $H/env.sh
 mkdir -p $V/work
 BIN=$H/bin/drive_race_$P
-(cd $R && go build -race -overlay=$H/overlay/o.json -tags verif -o $BIN ./verifdrive)
+$H/build.sh $P   # (re)writes the per-property overlay o-$P.json
+(cd $R && go build -race -overlay=$H/overlay/o-$P.json -tags verif -o $BIN ./verifdrive)
 LOG=$V/work/$P.race.$$
 rm -f $LOG.*
 GORACE="halt_on_error=0 log_path=$LOG" $BIN -prop $P -tier quick -seed ${VERIF_SEED:-1} > $V/work/$P.race.lines || true  # exit code 66 = races were reported
